@@ -197,6 +197,30 @@ register(
     "DESIGN.md §3 C14",
 )
 
+register(
+    "C19",
+    "bounded-exhaustive enumeration of every PSD specification of 1-3 segments over a slope alphabet placed on both sides of the s=-1 special case, every input-scale x output-scale x overlap x frange x extendends combination of rescale, every (p,q,n,pts,axis) of resample and EVERY time-step sequence up to length 6 over a 7-letter step alphabet x clean-up option variants for fixtime, against 40-digit integrals, brute-force band integrals and a brute-force nearest/previous-sample model",
+    "Every specification / band layout / resampling ratio / time-vector pattern of the bounded space is run through the "
+    "real routine and compared with the defining integral or a brute-force model: area and interp against the log-log "
+    "interpolant, each rescale output band against the overlap integral of the piecewise-constant input, resample "
+    "length/constants/retained samples/positions/accuracy, and for fixtime uniformity of the time base and "
+    "nearest-or-previous selection on the cleaned record (also through the numba-branch source run as plain Python).",
+    "Trusted: the references in vf/checks/c19.py; band-edge convention transcribed from the rescale docstring; "
+    "resample accuracy bounds calibrated (3x observed); step alphabet {dt,.9dt,1.1dt,2dt,3dt,0,-dt}, length <= 6.",
+    "DESIGN.md §3 C19",
+)
+
+register(
+    "C20",
+    "bounded-exhaustive grid over (p, c) in an 8x8 alphabet x every n in 2..60 plus a ladder to 1e6 x every rank 1..12, against independent 30-50 digit evaluations of the defining probability statements (non-central t by quadrature, normal coverage integral, chi-square tail, binomial tails)",
+    "Every grid point is evaluated: ksingle*sqrt(n) must be the c-quantile of the non-central t distribution, kdouble "
+    "must satisfy both documented equations, both are monotone in p and c and approach the normal quantile on the n "
+    "ladder; order_stats r / n must be extreme (meets the confidence, the adjacent integer does not), p and c invert "
+    "each other, scalar and broadcast forms agree.",
+    "Trusted: mpmath quadrature/special functions; ties at double rounding accepted either way; (p,c) on a grid, n ladder finite.",
+    "DESIGN.md §3 C20",
+)
+
 
 def build():
     checks = []
